@@ -610,6 +610,7 @@ class Evaluator:
         if isinstance(op, ast.Mult) and isinstance(b, (list, tuple)) and isinstance(a, Poly) and a.real_const() is not None and a.real_const().denominator == 1:
             return b * int(a.real_const())
         if isinstance(op, ast.Mod) and isinstance(a, str): return Opq('fstr', a)
+        if isinstance(op, ast.BitOr) and isinstance(a, dict) and isinstance(b, dict): return {**a, **b}          # d1 | d2
         if isinstance(op, ast.BitOr) or isinstance(op, ast.BitAnd):
             return Opq('bitop', type(op).__name__, a, b)
         pa, pb = as_poly(a), as_poly(b)
@@ -716,8 +717,8 @@ class Evaluator:
             r = None
             if isinstance(b, (list, tuple)) and not isinstance(a, (Poly, Opq, Cond)) or (isinstance(b, (list, tuple)) and all(not isinstance(x, (Opq, Cond)) for x in b) and isinstance(a, (str, Poly)) and (isinstance(a, str) or a.is_const())):
                 r = any(same(a, x) for x in b)
-            elif isinstance(b, dict) and (isinstance(a, str) or (isinstance(a, Poly) and a.is_const())):
-                r = any(same(a, x) for x in b)
+            elif isinstance(b, dict) and (isinstance(a, str) or (isinstance(a, Poly) and a.is_const())) and _const_keyed(b):
+                r = any(same(a, x.v if isinstance(x, _HK) else x) for x in b)
             if r is None and isinstance(b, (list, tuple)) and 0 < len(b) <= 8 and all(_is_concrete(x) or isinstance(x, Poly) for x in b) and not isinstance(a, (list, tuple, dict)):
                 r = s.mkbool('or', [s.compare(ast.Eq(), a, x) for x in b])
             if r is None: r = Opq('in', a, b)
@@ -1045,7 +1046,14 @@ class Evaluator:
             if isinstance(v, (list, tuple)) and all(x is None or (isinstance(x, Poly) and x.real_const() is not None) for x in (lo, up, st)):
                 f = lambda x: None if x is None else int(x.real_const())
                 return v[f(lo):f(up):f(st)]
+            if lo is None and up is None and st is None: return v          # x[:] has the elements of x
             return Poly.atom(('slice', atomname(v), tkey(lo), tkey(up), tkey(st)))
+        if isinstance(e.slice, ast.Tuple) and len(e.slice.elts) >= 2 and not isinstance(v, (dict,)):
+            # x[i, :] is x[i]: trailing full slices select everything
+            elts = list(e.slice.elts)
+            while len(elts) > 1 and isinstance(elts[-1], ast.Slice) and elts[-1].lower is None and elts[-1].upper is None and elts[-1].step is None: elts.pop()
+            if len(elts) == 1 and len(e.slice.elts) > 1 and not isinstance(elts[0], ast.Slice):
+                return s.e_Subscript(ast.copy_location(ast.Subscript(value=_TermNode(v), slice=elts[0], ctx=ast.Load()), e), env, mod, depth)
         k = s.ev(e.slice, env, mod, depth)
         if isinstance(v, Rec) and v.clsref is not None and depth < s.depth_limit:
             gi = s.prog.find_member(v.clsref[0], v.clsref[1], '__getitem__') if isinstance(v.clsref, tuple) else None
@@ -1063,6 +1071,10 @@ class Evaluator:
                 if same(kk.v if isinstance(kk, _HK) else kk, k): return vv
             if not has_opaque(k) and all(isinstance(kk, (str, int, bool)) for kk in v) and isinstance(k, str):
                 if s._try_depth > 0 or s.raise_lookup_errors: raise Raised('KeyError', k)
+                return Opq('KeyError', k)
+            if _const_keyed(v) and (isinstance(k, str) or (isinstance(k, Poly) and k.is_const())):
+                # a constant key that none of the (all constant) keys equals
+                if s._try_depth > 0 or s.raise_lookup_errors: raise Raised('KeyError', repr(k))
                 return Opq('KeyError', k)
             return Opq('dispatch', v, k)
         if isinstance(v, (tuple, list)) and isinstance(k, Poly) and k.real_const() is not None:
@@ -1218,6 +1230,10 @@ class Evaluator:
     def apply(s, fv, args, kw, mod, depth, node=None):
         if isinstance(fv, Cond):
             return Cond(fv.g, s.apply(fv.a, args, kw, mod, depth, node), s.apply(fv.b, args, kw, mod, depth, node))
+        at_ = fv.as_atom() if isinstance(fv, Poly) else None
+        if isinstance(at_, tuple) and len(at_) == 3 and at_[0] == '.' and isinstance(at_[2], str) and (isinstance(at_[1], str) or isinstance(at_[1], tuple)):
+            # a bound method taken as a value (f = obj.method; f(x)) is the method call obj.method(x)
+            return s.call_method(Poly.atom(at_[1]), at_[2], list(args), kw, mod, depth, node)
         if isinstance(fv, Closure):
             if depth >= s.depth_limit: return Opq('?', 'depth')
             a2 = ([fv.self_val] if fv.self_val is not None else []) + list(args)
@@ -1348,6 +1364,9 @@ class Evaluator:
             if isinstance(a, Comp) and a.kind == 'set': return Opq('list', a)
             if isinstance(a, Comp): return Comp(a.elt, a.gens, 'list')
             if isinstance(a, Opq) and a.k and a.k[0] == 'keys' and len(a.k) == 2 and name == 'list': return Opq('list', a.k[1])       # list(d.keys()) == list(d)
+            at_ = a.as_atom() if isinstance(a, Poly) else None
+            if isinstance(at_, tuple) and len(at_) == 4 and at_[0] == 'call' and isinstance(at_[1], tuple) and at_[1][0] == '.' and at_[1][2] == 'keys' and not at_[2] and not at_[3]:
+                return Opq(name, Poly.atom(at_[1][1]))          # list(x.keys()) == list(x) for a mapping x
             return Opq('list', a)
         if name == 'list' and not args: return []
         if name == 'set' and not args: return Opq('set')
@@ -1369,6 +1388,10 @@ class Evaluator:
                 for x in a: r = s.binop(ast.Add(), r, x)
                 return r
             return Opq('Σ', a)
+        if name in ('min', 'max') and len(args) >= 2 and not kw and all(isinstance(x, (Poly, int, F)) and as_poly(x).real_const() is not None for x in args):
+            return Poly.const((min if name == 'min' else max)(as_poly(x).real_const() for x in args))
+        if name in ('min', 'max') and len(args) == 1 and isinstance(a, dict) and a and _const_keyed(a) and not kw:
+            a = [k_.v if isinstance(k_, _HK) else k_ for k_ in a]          # a mapping iterates its keys
         if name in ('min', 'max') and len(args) == 1 and isinstance(a, (list, tuple)) and all(isinstance(x, Poly) and x.real_const() is not None for x in a) and a:
             return Poly.const((min if name == 'min' else max)(x.real_const() for x in a))
         if name == 'isinstance' and len(args) == 2:
@@ -1812,6 +1835,8 @@ class Evaluator:
                 kwd = {k.arg: s.ev(k.value, env, mod, depth) for k in e.keywords}
                 args = ([{**args[0], **kwd}] if len(args) == 1 and isinstance(args[0], dict) else args + [kwd]) if args else [kwd]
                 if len(args) == 2 and isinstance(cur, dict) and isinstance(args[0], dict): args = [{**args[0], **args[1]}]
+            if attr == 'update' and len(args) == 1 and isinstance(args[0], (list, tuple)) and all(isinstance(x_, (list, tuple)) and len(x_) == 2 and isinstance(x_[0], (str, int)) for x_ in args[0]):
+                args = [{x_[0]: x_[1] for x_ in args[0]}]          # d.update(pairs)
             if attr == 'append' and isinstance(cur, list) and len(args) == 1:
                 s.rebind(nm, cur + [args[0]], env); return
             if attr == 'update' and isinstance(cur, dict) and len(args) == 1 and isinstance(args[0], dict):
@@ -2425,6 +2450,11 @@ def _pair_set(v):
         if len(items) == 1 and isinstance(items[0], (tuple, list)): items = tuple(items[0])
         if len(items) == 2: return items[0], items[1]
     return None
+
+
+def _const_keyed(d):
+    """every key of the dictionary term is a constant (string, number, constant polynomial)"""
+    return all(isinstance(k, (str, int, bool)) or k is None or (isinstance(k, _HK) and isinstance(k.v, Poly) and k.v.is_const()) for k in d)
 
 
 def _is_concrete(x):
